@@ -424,6 +424,9 @@ def run(ctx, rep):
     rule_label(ctx, rep, g)
     rule_sep(ctx, rep, g)
     rule_ident(ctx, rep)
+    # well-formed text parses: blanks and comments are accepted between any two tokens of a production
+    from rules import c08_trivia
+    c08_trivia.run(ctx, rep, rid="R-C01-trivia")
     from rules import c01_vars
     c01_vars.run(ctx, rep)
     rule_collide(ctx, rep, g)
